@@ -663,6 +663,7 @@ class Sample:
             return 40
 
         phase = self.phases.setdefault(fragment, {})
+        earlier = dict(phase)  # what the fragment's other reads have shown so far
         dump_arr = []
         start, s_start = ref_start, 0
         prev_q = 10
@@ -747,12 +748,19 @@ class Sample:
             ):
                 # the read ends inside the multi-substitution and shows it as far as
                 # it goes: it cannot tell which allele the fragment carries here
-                del phase[pos]
+                # (what another read of the fragment has shown there stands)
+                if pos in earlier:
+                    phase[pos] = earlier[pos]
+                else:
+                    del phase[pos]
 
         # a read that ends on the base an insertion is anchored to cannot show the
         # insertion: its reference base there does not tell which allele it carries
         if start - 1 in self._insertion_anchors and phase.get(start - 1) == "_":
-            del phase[start - 1]
+            if start - 1 in earlier:
+                phase[start - 1] = earlier[start - 1]
+            else:
+                del phase[start - 1]
 
         if self._indel_sites_eqs:  # long-read hack
             for pos, op in self._indel_sites:
